@@ -502,6 +502,12 @@ def validate_path(unit, ctx, res, rng):
         res['validation_skipped'] += 1
         return
     fctx, st = run_float(unit, env)
+    if st == 'raised' and fctx is not None and fctx.float_failures:
+        # the real float code raised where the symbolic run of the same harness completed:
+        # never silently skipped -- confirmed at a second point this is a violation
+        res['float_oracle_failures'].extend('%s: %s %s' % (unit.name, f[0], f[1]) for f in fctx.float_failures[:3])
+        res['float_fail_points'].append((env, [list(f) for f in fctx.float_failures[:5]]))
+        return
     if st != 'ok':
         res['validation_skipped'] += 1
         return
